@@ -729,17 +729,20 @@ func handleConnectionBindRequest(req Request, stunMsg *stun.Message) error {
 		return buildAndSendErr(req.Conn, req.SrcAddr, err, badRequestMsg...)
 	}
 
+	// A data connection is a stream. A ConnectionBind that arrives on a datagram transport
+	// cannot be honoured; refuse it before GetTCPConnection marks the peer connection bound
+	// and stops its timer, or that connection could neither be bound nor ever time out.
+	stunConn, ok := req.Conn.(*proto.STUNConn)
+	if !ok {
+		return buildAndSendErr(req.Conn, req.SrcAddr, err, badRequestMsg...)
+	}
+
 	// Authentication of the client by the server MUST use the same method
 	// and credentials as for the control connection.
 	//
 	// GetTCPConnection asserts that userName used for auth is same as allocation
 	tcpConn := req.AllocationManager.GetTCPConnection(userID, connectionID)
 	if tcpConn == nil {
-		return buildAndSendErr(req.Conn, req.SrcAddr, err, badRequestMsg...)
-	}
-
-	stunConn, ok := req.Conn.(*proto.STUNConn)
-	if !ok {
 		return buildAndSendErr(req.Conn, req.SrcAddr, err, badRequestMsg...)
 	}
 
